@@ -347,7 +347,7 @@ package ext
 // C02 (the retry decision): when the parser only needs more bytes and the peek itself did not fail, the answer
 // is "need more" - whatever the buffered bytes look like - so the read loop retries with a longer peek. The
 // trailing-CRLF shortcut to EOF applies only after a failed peek.
-//@ ghost var heNeedMore bool
+//@ ghost var heNeedMore bool scratch
 //@ func HeaderError(typ, err, errParse, b) r
 //@   props C02
 //@   modifies heNeedMore
